@@ -74,10 +74,11 @@ func c07H2Script(s *verifh.Session, sid uint32) ([]byte, []string) {
 		tDATA, tHEADERS, tPRIORITY, tRST, tSETTINGS, tPUSH, tPING, tGOAWAY, tWU, tCONT = 0, 1, 2, 3, 4, 5, 6, 7, 8, 9
 	)
 	// server SETTINGS (maybe hostile)
-	switch r.Intn(20) {
-	case 0:
+	switch r.Intn(12) {
+	case 0, 4:
 		emit(c07Frame{-1, tSETTINGS, 0, 0, verifh.Pick(r, [][]byte{
 			c07Setting(2, 2), c07Setting(4, 1<<31), c07Setting(5, 0), c07Setting(5, 1<<24), c07Setting(4, 0),
+			c07Setting(5, 1<<31), c07Setting(5, 0xffffffff), c07Setting(5, 1), c07Setting(5, 16383), c07Setting(4, 0xffffffff), c07Setting(3, 0xffffffff), c07Setting(1, 0xffffffff), c07Setting(6, 0),
 			c07Setting(3, 0), c07Setting(1, 0), c07Setting(6, 1), c07Setting(0x99, 7), {1, 2, 3}, append(c07Setting(4, 5), c07Setting(4, 1<<31-1)...)})})
 		tag("odd-settings")
 	case 1:
@@ -438,6 +439,7 @@ func TestVerif_C07_h2hostile(t *testing.T) {
 	for i := 0; i < n; i++ {
 		script, tags := c07H2Script(s, 1)
 		oi := s.Rand().Intn(len(opts))
+		method := verifh.Pick(s.Rand(), []int{0, 0, 1, 2})
 		path := "/" + strconv.Itoa(i)
 		peer.set(path, c07Script{data: script})
 		ch := make(chan [2]string, 1)
@@ -450,7 +452,16 @@ func TestVerif_C07_h2hostile(t *testing.T) {
 				if opts[oi].req != nil {
 					opts[oi].req(r, dir, i)
 				}
-				rp, err := r.Get(base + path)
+				var rp *Response
+				var err error
+				switch method {
+				case 1:
+					rp, err = r.SetBodyString(strings.Repeat("u", 100)).Post(base + path)
+				case 2:
+					rp, err = r.SetBodyBytes(bytes.Repeat([]byte("U"), 70000)).Put(base + path)
+				default:
+					rp, err = r.Get(base + path)
+				}
 				switch {
 				case rp == nil:
 					kind = "nil-response"
@@ -473,7 +484,7 @@ func TestVerif_C07_h2hostile(t *testing.T) {
 			}
 			ch <- [2]string{kind, ""}
 		}()
-		human := fmt.Sprintf("opt=%s tags=%v frames=%x", opts[oi].name, tags, truncate(string(script), 200))
+		human := fmt.Sprintf("opt=%s method=%s tags=%v frames=%x", opts[oi].name, []string{"GET", "POST(100B)", "PUT(70000B)"}[method], tags, truncate(string(script), 200))
 		id := "h2hostile:" + opts[oi].name + ":" + verifh.Hex(string(script))
 		class := ""
 		if opts[oi].name == "autodecompress" || opts[oi].name == "everything" {
